@@ -193,6 +193,113 @@ class UnreachableBarriers(Unit):
         ctx.bounded.append({"unit": self.name, "bound": "%d staged entries" % n})
 
 
+class UnreachableBarriersUnbounded(Unit):
+    name = "S.get_unreachable_barriers.unbounded"
+    functions = ["orquesta.conducting.WorkflowState.get_unreachable_barriers", "orquesta.conducting.WorkflowState.get_staged_tasks"]
+    obligations = {
+        "C07.gub.definition_any": {"props": ["C07", "C02"], "text":
+            "for a staged list of any length, in an arbitrary loop iteration: the staged entry is appended to the result iff it is a join task, not ready, and its inbound criteria (asked for exactly its own id and route) are NOT_SATISFIED; it is appended itself, once, unmodified, and nothing else is appended; the call returns the accumulated list and every entry of the raw staged list (not the ready-filtered one) is iterated"},
+    }
+    assumptions = [
+        "loop summary: the loop body is verified for one arbitrary element of the iterated list from the initial accumulator; the result is only appended to (shown per iteration) - the lift to all iterations (result = order-preserving selection of the staged list by the per-entry predicate) is this monotone-accumulator argument, not re-proved by the solver",
+        "graph.get_barriers: assumed contract (a container with an arbitrary membership predicate); get_inbound_criteria_status: assumed contract (an arbitrary function of (task id, route) into the three criteria statuses, no effect) - its definition is the subject of C.get_inbound_criteria_status",
+    ]
+    trusted = ["z3 5.1", "pyvc interpreter"]
+    timeout_ms = 20000
+
+    def splits(self, tier):
+        return ["generic"]
+
+    def run_split(self, ctx, split):
+        import ast as _ast
+        from pyvc import seqlib
+        from pyvc.engine import _Continue
+        from pyvc.sym import SList
+
+        def thunk(e):
+            I, B = z3.IntSort(), z3.BoolSort()
+            fid = z3.Function(S.fresh_name("stg_id"), I, I)
+            frt = z3.Function(S.fresh_name("stg_route"), I, I)
+            frd = z3.Function(S.fresh_name("stg_ready"), I, B)
+            fhc = z3.Function(S.fresh_name("stg_has_completed"), I, B)
+            fco = z3.Function(S.fresh_name("stg_completed"), I, B)
+            isjoin = z3.Function(S.fresh_name("is_barrier"), I, B)
+            crit = z3.Function(S.fresh_name("criteria"), I, I, I)
+            m = z3.Int(S.fresh_name("n_staged"))
+            e.assume(m >= 0)
+
+            def get(j):
+                j = seqlib.zidx(j)
+                return {"id": SConst(fid(j)), "route": SInt(frt(j)), "ready": SBool(frd(j)),
+                        "completed": OptField(fhc(j), SBool(fco(j))), "__idx": SInt(j)}
+            staged = SList(m, get, "staged")
+            calls = []
+
+            def contains(eng, x):
+                if not isinstance(x, SConst):
+                    raise S.Unsupported("barrier membership asked for something that is not a staged id")
+                return SBool(isjoin(x.z))
+            barriers = AbstractObj("barriers", __contains__=Stub("__contains__", contains))
+            graph = AbstractObj("graph", get_barriers=Stub("get_barriers", lambda eng: barriers))
+            c, ws = cbase.new_conductor(st.RUNNING, staged=staged, graph=graph)
+
+            def gics(eng, s_, tid, route):
+                calls.append((tid, route))
+                if not isinstance(tid, SConst) or not isinstance(route, SInt):
+                    raise S.Unsupported("inbound criteria asked for something that is not a staged id / route")
+                r = SConst(crit(tid.z, route.z), (SAT, WIP, NOT))
+                eng.assume(r.dom_constraint())
+                return r
+            e.overrides[conducting.WorkflowConductor.get_inbound_criteria_status] = gics
+            state = {"iter": None, "xs": None}
+
+            def loop(en, st_, env):
+                xs = en.eval(st_.iter, env)
+                if not isinstance(xs, SList):
+                    raise S.Unsupported("expected the symbolic staged list")
+                state["xs"] = xs
+                accs = sorted({n.func.value.id for n in _ast.walk(st_) if isinstance(n, _ast.Call)
+                               and isinstance(n.func, _ast.Attribute) and n.func.attr == "append"
+                               and isinstance(n.func.value, _ast.Name)})
+                if len(accs) != 1:
+                    raise S.Unsupported("loop of get_unreachable_barriers: expected one accumulator list, found %s" % (accs,))
+                acc_name = accs[0]
+                if en.branch(xs.length > 0):
+                    i = z3.Int(S.fresh_name("iter"))
+                    en.assume(z3.And(0 <= i, i < xs.length))
+                    elem = xs.get(i)
+                    if env.lookup(acc_name) != []:
+                        raise S.Unsupported("accumulator is not empty at loop entry")
+                    snap = dict(elem)
+                    en.assign(st_.target, elem, env)
+                    try:
+                        en.exec_block(st_.body, env)
+                    except _Continue:
+                        pass
+                    state["iter"] = {"elem": elem, "snap": snap, "acc_after": list(env.lookup(acc_name)), "calls": list(calls)}
+                env.locals[acc_name] = "ACCUMULATED_BARRIERS"
+
+            e.loop_handlers["WorkflowState.get_unreachable_barriers:loop#0"] = loop
+            res = e.call(conducting.WorkflowState.get_unreachable_barriers, [ws], {})
+            info = {}
+            cl = [z3.BoolVal(res == "ACCUMULATED_BARRIERS"), z3.BoolVal(state["xs"] is staged)]
+            it = state["iter"]
+            if it is not None:
+                elem = it["elem"]
+                q = elem["__idx"].z
+                want = z3.And(isjoin(fid(q)), z3.Not(frd(q)), crit(fid(q), frt(q)) == INTERN.id_of(NOT))
+                got = it["acc_after"]
+                cl.append(z3.BoolVal(len(got) <= 1 and all(x is elem for x in got)))
+                cl.append(want == z3.BoolVal(len(got) == 1))
+                cl.append(z3.BoolVal(set(elem.keys()) == set(it["snap"].keys()) and all(elem[k] is it["snap"][k] for k in elem)))
+                cl.append(z3.BoolVal(all(t is elem["id"] and r is elem["route"] for t, r in it["calls"])))
+                info["appended"] = len(got)
+            ctx.oblige("C07.gub.definition_any", z3.And(cl), None, info)
+            ctx.canary()
+
+        ctx.eng.explore(thunk)
+
+
 # ================================================================================================
 # make_task_result
 # ================================================================================================
